@@ -18,4 +18,12 @@ def handleEnclosed : List String → String
   | [] => toString (enclosed [])
   | _ => "bad-op"
 
+/-- `confine.plain R,Nxx,…` -/
+def handlePlain : List String → String
+  | [p] => match parseComps p with
+    | some p => toString (plain p)
+    | none => "bad-op"
+  | [] => toString (plain [])
+  | _ => "bad-op"
+
 end Grcov.Drv
